@@ -25,6 +25,10 @@ def QR(mat):
 
     """
     Q,R = tn.linalg.qr(mat)
+    if not (bool(tn.isfinite(Q).all()) and bool(tn.isfinite(R).all())) and bool(tn.isfinite(mat).all()):
+        # the LAPACK driver used by torch can return inf / nan for (complex64) matrices with tiny entries: use numpy
+        Qn, Rn = np.linalg.qr(mat.detach().cpu().numpy())
+        Q, R = tn.tensor(Qn, dtype=mat.dtype, device=mat.device), tn.tensor(Rn, dtype=mat.dtype, device=mat.device)
     return Q, R
     
 def SVD(mat):
